@@ -22,6 +22,11 @@
             _ => false,
         }
     }
+    /// the same value for everything that reads it: equal, and for integers of the same size (`sizeof`,
+    /// concatenation and slices read the size, which util::BigInt's equality ignores)
+    pub open spec fn value_same(a: Value, b: Value) -> bool {
+        value_eq(a, b) && (a is Integer ==> a->Integer_0.size == b->Integer_0.size)
+    }
     /// equality of the String/Message-carrying variants: left uninterpreted
     pub uninterp spec fn derived_eq_opaque(a: Value, b: Value) -> bool;
     impl PartialEqSpecImpl for Value {
